@@ -5,6 +5,8 @@
 package jsonpointer
 
 import (
+	"strings"
+
 	"github.com/go-faster/yaml"
 
 	"github.com/ogen-go/ogen/location"
@@ -14,6 +16,7 @@ import (
 //@ use errors
 //@ use strconv
 //@ use neturl
+//@ nonnil unescapeReplacer
 
 // rfcIndex: RFC 6901 section 4 array-index = %x30 / ( %x31-39 *(%x30-39) ) — no leading zeros.
 func rfcIndex(s string) bool {
@@ -42,7 +45,52 @@ func rfcIndex(s string) bool {
 //@   ensures element: ok ==> err == nil && (exists k in (0, len(n.Content)) :: r == n.Content[k])
 //@   ensures noelem:  !ok ==> r == nil
 
+// rfcUnescape: RFC 6901 section 4: "~1" -> "/" and "~0" -> "~", evaluated in ONE left-to-right pass
+// (so "~01" becomes "~1", never "/").
+func rfcUnescape(s string) string {
+	if len(s) < 2 {
+		return s
+	}
+	if s[0] == '~' && s[1] == '1' {
+		return "/" + rfcUnescape(s[2:])
+	}
+	if s[0] == '~' && s[1] == '0' {
+		return "~" + rfcUnescape(s[2:])
+	}
+	return s[:1] + rfcUnescape(s[1:])
+}
+
+// hasTilde01: the token contains "~0" or "~1".
+func hasSub2(s string, a, b byte) bool {
+	return vExistsIn(0, len(s)-1, func(i int) bool { return s[i] == a && s[i+1] == b })
+}
+
+//@ extern func strings.Contains(s string, substr string) (ok bool)
+//@   pure
+//@   ensures two: len(substr) == 2 ==> ok == hasSub2(s, substr[0], substr[1])
+
+// The package-level unescapeReplacer is strings.NewReplacer("~1", "/", "~0", "~"); strings.Replacer
+// documentation: "Replacements are performed in the order they appear in the target string, without
+// overlapping matches" - i.e. exactly the single left-to-right pass of rfcUnescape. ASSUMED for this
+// one replacer object (its construction arguments are not visible to the proof; the bounded stand-in
+// unescape-exhaustive compares the real function with rfcUnescape on every short token).
+//@ extern func (r *strings.Replacer) Replace(s string) (out string)
+//@   pure
+//@   ensures rfc: r == unescapeReplacer ==> out == rfcUnescape(s)
+
+//@ lemma unescapeNoTilde(s string)
+//@   requires none: !hasSub2(s, '~', '1') && !hasSub2(s, '~', '0')
+//@   ensures id: rfcUnescape(s) == s
+//@   decreases len(s)
+//@   induct s[1:]
+//@   trigger rfcUnescape(s)
+
+//@ func unescape(part string) (r string)
+//@   uses unescapeNoTilde
+//@   ensures rfc: r == rfcUnescape(part)
+
 var _ yaml.Node
+var _ = strings.Contains
 
 // ---------------------------------------------------------------------------
 // ResolveCtx: the cycle / depth mechanism of reference resolution (C07)
